@@ -22,7 +22,10 @@ pub open spec fn ukeys<K, N, E>() -> Set<K> { universe::<K, N, E>().map(|n: Node
 pub open spec fn graph_ok<K, N, E>(adj: spec_fn(Node<K, N, E>) -> Seq<Edge<K, N, E>>) -> bool {
     &&& forall|n: Node<K, N, E>, i: int| universe::<K, N, E>().contains(n) && 0 <= i < adj(n).len() ==> (#[trigger] adj(n)[i]).0 == n
     &&& forall|n: Node<K, N, E>, i: int| universe::<K, N, E>().contains(n) && 0 <= i < adj(n).len() ==> universe::<K, N, E>().contains((#[trigger] adj(n)[i]).1)
-    &&& forall|a: Node<K, N, E>, b: Node<K, N, E>| universe::<K, N, E>().contains(a) && universe::<K, N, E>().contains(b) && a.k() == b.k() ==> a == b
+    &&& keys_distinct::<K, N, E>()
+}
+pub open spec fn keys_distinct<K, N, E>() -> bool {
+    forall|a: Node<K, N, E>, b: Node<K, N, E>| universe::<K, N, E>().contains(a) && universe::<K, N, E>().contains(b) && a.k() == b.k() ==> a == b
 }
 
 pub open spec fn in_adj<K, N, E>(e: Edge<K, N, E>, adj: spec_fn(Node<K, N, E>) -> Seq<Edge<K, N, E>>) -> bool {
@@ -315,4 +318,55 @@ pub proof fn lemma_unvisited_mono<K, N, E>(a: Set<K>, b: Set<K>)
 // nodes that became visited between vis0 and vis1 are closed (DFS recursion postcondition)
 pub open spec fn new_closed<K, N, E>(vis0: Set<K>, vis1: Set<K>, acc: spec_fn(Edge<K, N, E>) -> bool, adj: spec_fn(Node<K, N, E>) -> Seq<Edge<K, N, E>>) -> bool {
     forall|u: Node<K, N, E>| #[trigger] universe::<K, N, E>().contains(u) && vis1.contains(u.k()) && !vis0.contains(u.k()) ==> closed_at(u, vis1, acc, adj)
+}
+
+// ---- frontier with an arbitrary "pending" predicate (priority queue) ----
+pub open spec fn frontier_p<K, N, E>(vis: Set<K>, root: Node<K, N, E>, pend: spec_fn(Node<K, N, E>) -> bool, cur: Option<Node<K, N, E>>, acc: spec_fn(Edge<K, N, E>) -> bool, adj: spec_fn(Node<K, N, E>) -> Seq<Edge<K, N, E>>) -> bool {
+    forall|n: Node<K, N, E>| #[trigger] universe::<K, N, E>().contains(n) && (vis.contains(n.k()) || n == root) ==> pend(n) || cur == Some(n) || closed_at(n, vis, acc, adj)
+}
+pub proof fn lemma_frontier_p_pop<K, N, E>(vis: Set<K>, root: Node<K, N, E>, pend0: spec_fn(Node<K, N, E>) -> bool, pend1: spec_fn(Node<K, N, E>) -> bool, x: Node<K, N, E>, acc: spec_fn(Edge<K, N, E>) -> bool, adj: spec_fn(Node<K, N, E>) -> Seq<Edge<K, N, E>>)
+    requires frontier_p(vis, root, pend0, None, acc, adj), forall|n: Node<K, N, E>| #[trigger] pend0(n) ==> pend1(n) || n == x
+    ensures frontier_p(vis, root, pend1, Some(x), acc, adj)
+{
+    assert forall|n: Node<K, N, E>| #[trigger] universe::<K, N, E>().contains(n) && (vis.contains(n.k()) || n == root) implies pend1(n) || Some(x) == Some(n) || closed_at(n, vis, acc, adj) by {
+        if pend0(n) {}
+    }
+}
+pub proof fn lemma_frontier_p_grow<K, N, E>(vis: Set<K>, root: Node<K, N, E>, pend0: spec_fn(Node<K, N, E>) -> bool, pend1: spec_fn(Node<K, N, E>) -> bool, cur: Node<K, N, E>, acc: spec_fn(Edge<K, N, E>) -> bool, adj: spec_fn(Node<K, N, E>) -> Seq<Edge<K, N, E>>, v: Node<K, N, E>)
+    requires graph_ok(adj), universe::<K, N, E>().contains(v), frontier_p(vis, root, pend0, Some(cur), acc, adj),
+        forall|n: Node<K, N, E>| #[trigger] pend0(n) ==> pend1(n), pend1(v)
+    ensures frontier_p(vis.insert(v.k()), root, pend1, Some(cur), acc, adj)
+{
+    let vis2 = vis.insert(v.k());
+    assert forall|n: Node<K, N, E>| #[trigger] universe::<K, N, E>().contains(n) && (vis2.contains(n.k()) || n == root) implies pend1(n) || Some(cur) == Some(n) || closed_at(n, vis2, acc, adj) by {
+        if n.k() == v.k() { assert(n == v); }
+        else { if pend0(n) {} }
+    }
+}
+
+// the frontier predicate holds for a heap that contains (at least) the root, when nothing
+// but the root is visited
+pub proof fn lemma_pfs_start<K, N, E>(vis: Set<K>, root: Node<K, N, E>, acc: spec_fn(Edge<K, N, E>) -> bool, adj: spec_fn(Node<K, N, E>) -> Seq<Edge<K, N, E>>)
+    requires keys_distinct::<K, N, E>(), universe::<K, N, E>().contains(root), forall|k: K| vis.contains(k) ==> k == root.k()
+    ensures forall|pend: spec_fn(Node<K, N, E>) -> bool| pend(root) ==> #[trigger] frontier_p(vis, root, pend, None, acc, adj)
+{
+    assert forall|pend: spec_fn(Node<K, N, E>) -> bool| pend(root) implies #[trigger] frontier_p(vis, root, pend, None, acc, adj) by {
+        assert forall|n: Node<K, N, E>| #[trigger] universe::<K, N, E>().contains(n) && (vis.contains(n.k()) || n == root) implies pend(n) || None::<Node<K, N, E>> == Some(n) || closed_at(n, vis, acc, adj) by {
+            assert(n == root);
+        }
+    }
+}
+
+// every target of a search tree is reachable from the root
+pub proof fn lemma_tree_reach<K, N, E>(r: Seq<Edge<K, N, E>>, root: Node<K, N, E>, acc: spec_fn(Edge<K, N, E>) -> bool, adj: spec_fn(Node<K, N, E>) -> Seq<Edge<K, N, E>>, i: int)
+    requires graph_ok(adj), universe::<K, N, E>().contains(root), tree(r, root, acc, adj), 0 <= i < r.len()
+    ensures reach(root, r[i].1.k(), acc, adj)
+    decreases i
+{
+    reveal(tree);
+    if r[i].0 != root {
+        let j = choose|j: int| 0 <= j < i && r[j].1 == r[i].0;
+        lemma_tree_reach(r, root, acc, adj, j);
+    }
+    lemma_reach_step(root, acc, adj, r[i]);
 }
